@@ -82,6 +82,7 @@ def cases(ctx):
         yield 'exh', {'maxlen': 3, 'minlen': 3, 'stride': 5, 'mod': ctx.nshards, 'rem': ctx.shard,
                       'partial': True}
     n = 4000 if q else 60000
+    ctx.new_phase()
     for i in range(n):
         if not ctx.time_left():
             break
